@@ -153,7 +153,11 @@ def unify_chunks_expr(*args):
     for a, ind in arginds:
         if ind is not None and not isinstance(a, ArrayBlockwiseDep):
             nameinds.append((a.name, ind))
-            blockdim_dict[a.name] = a.chunks
+            # An axis of length 1 broadcasts against the other arrays: whatever
+            # (zero-width) chunks it carries must not take part in the common chunking
+            blockdim_dict[a.name] = tuple(
+                (1,) if s == 1 else c for s, c in zip(a.shape, a.chunks)
+            )
         else:
             nameinds.append((a, ind))
 
